@@ -123,5 +123,5 @@ func (c *ChaCha20Poly1305) Decrypt(header recordlayer.Header, in []byte) ([]byte
 		return nil, fmt.Errorf("%w: %v", dtlserrors.ErrDecryptPacket, err) //nolint:errorlint
 	}
 
-	return append(in[:header.Size()], plaintext...), nil
+	return plaintextRecord(in, header.Size(), plaintext), nil
 }
